@@ -67,6 +67,14 @@ def programs():
         [[("success",), ("failure", "T")], [("failure", "T")]], BRK)
     brk("probe [success;allow]||failure", half_probe,
         [[("success",), ("allow",)], [("failure", "T")]])
+    # the injected clock fails once during one operation: that operation raises, everybody else
+    # goes on (no lock is left behind)
+    brk("closed faulty-allow||allow", [], [[("faulty", ("allow",))], [("allow",)]])
+    brk("near-threshold faulty-failure||failure||state", [("failure", "T")],
+        [[("faulty", ("failure", "T"))], [("failure", "T")], [("state",)]], BRK)
+    BRK3 = {"threshold": 3, "window": 8, "recovery": 2}
+    brk("failure||failure||tick (threshold 3)", [], [[("failure", "T")], [("failure", "T")],
+                                                     [("tick", 3)]], BRK3)
     b2 = {"max": 2, "window": 4}
     bud("one-left consume||consume", b2, [("consume", 1)], [[("consume", 1)], [("consume", 1)]])
     bud("consume2||consume1", b2, [], [[("consume", 2)], [("consume", 1)]])
